@@ -11,7 +11,8 @@ geometrically): every container format a grid can be expressed in (`.vti`, `.vtr
 `fieldcompare.io.write`, legacy `.vtk` and `.xdmf` written by meshio) must read to the same content, and any two of
 them must compare equal with `MeshFieldsComparator` (domain equal, every point field PASSED, no field FAILED).
 Adversarial: zero extents in every subset of directions, grids in every coordinate plane, rotated / sheared
-direction matrices, extents that do not start at 0, empty ordinate arrays, shuffled and repeated meshio blocks.
+direction matrices, extents that do not start at 0 (all three structured formats; for `.vti` this was
+finding F20, fixed by a3961d2 — ordinary cases now), empty ordinate arrays, shuffled and repeated meshio blocks.
 """
 from __future__ import annotations
 import contextlib
@@ -679,7 +680,6 @@ def check_grid_files(ctx, grid, tmp, lean_lines, pending, with_meshio=False):
     for fmt in fmts:
         case = {"op": "grid-file", "format": fmt, "grid": grid}
         base = os.path.join(tmp, f"g{ctx.evaluations}_{fmt}")
-        offset_vti = fmt == "vti" and any(grid["lo"])
         if fmt == "vti":
             write_vti(base + ".vti", grid)
         elif fmt == "vtr":
@@ -699,13 +699,11 @@ def check_grid_files(ctx, grid, tmp, lean_lines, pending, with_meshio=False):
                  sample={"format": fmt, "ext": grid["ext"], "lo": grid["lo"], "family": grid["family"],
                          "impl_cells": (impl if isinstance(impl, str) else len(impl[1]))})
         if impl != [specP, specC]:
-            cls = "F14" if offset_vti else None
-            ctx.violation(case, _short(impl), _short([specP, specC]), cls=cls,
-                          what=f".{fmt} file does not read to the content of the grid it describes"
-                               + (" (image data whose extent does not start at 0)" if offset_vti else ""))
+            ctx.violation(case, _short(impl), _short([specP, specC]), cls=None,
+                          what=f".{fmt} file does not read to the content of the grid it describes")
         elif dtypes_of(lm) != spec_dt:
             ctx.violation(case, dtypes_of(lm), spec_dt, what=f".{fmt}: numeric type of a field changed by reading")
-        if fobj is not None and not offset_vti:
+        if fobj is not None:
             objs.append((fmt, fobj))
         if fmt != "vtu" and ctx.driver_ok and not grid.get("inexact"):
             lean_lines.append(enc_read(grid, {"vti": "image", "vtr": "rect", "vts": "struct"}[fmt]))
@@ -771,8 +769,8 @@ def settle(ctx, lean_lines, pending):
             model, spec, impl_c = norm_mesh_obs(rep["model"]), norm_mesh_obs(rep["spec"]), norm_mesh_obs(impl)
         else:
             model, spec, impl_c = _canon(parse_content(rep["model"])), _canon(parse_content(rep["spec"])), _canon(impl)
-        # the model follows the code outside hyp as well for file reads (offset extents) and meshio blocks
-        faithful = rep["hyp"] == "1" or kind in ("mio", "read")
+        # the model follows the code outside hyp as well for meshio meshes with repeated blocks (class F9)
+        faithful = rep["hyp"] == "1" or kind == "mio"
         if faithful and impl_c != model:
             ctx.mismatch(case, str(impl_c)[:600], str(model)[:600], what=f"{kind}: impl vs Lean model")
         if rep["hyp"] == "1" and model != spec:
